@@ -439,7 +439,9 @@ func (s *Store) Put(key []byte, value []byte) error {
 		// If the key exists and the one stored is the one we are trying
 		// to put this is an update.
 		// if found && bytes.Compare(key, storedKey) == 0 {
-		if err = s.index.Update(indexKey, fileOffset); err != nil {
+		// GC may have relocated the record since it was looked up, so the
+		// outdated location is the one the index held until now.
+		if prevOffset, err = s.index.Replace(indexKey, fileOffset); err != nil {
 			return err
 		}
 		// Add outdated data in primary storage to freelist
@@ -507,7 +509,9 @@ func (s *Store) Remove(key []byte) (bool, error) {
 		return false, nil
 	}
 
-	removed, err := s.index.Remove(storedKey)
+	// GC may have relocated the record since it was looked up, so the location
+	// to free is the one the index held until now.
+	offset, removed, err := s.index.Take(storedKey)
 	if err != nil {
 		return false, err
 	}
